@@ -90,6 +90,18 @@ pub fn scenario_bits(bits: u32, nbits: u8, clear_at: u8, verbose: bool) -> bool 
             let b = (bits >> i) & 1 != 0;
             let r = d.add_bit(b);
             let (st2, e) = x_ps2_step(st.0, st.1, b);
+            // C06 proper is relational: the eleventh bit returns what *whole-word decoding of the real code* returns for the
+            // assembled word (whether that is the right answer is C05's business)
+            #[cfg(not(kani))]
+            let e = if crate::relational() && st.0 == 10 {
+                let w = st.1 | ((b as u16) << 10);
+                match Ps2Decoder::new().add_word(w) {
+                    Ok(x) => Ok(Some(x)),
+                    Err(x) => Err(x),
+                }
+            } else {
+                e
+            };
             say!(verbose, "step {}: add_bit({}) -> {:?}   expected {:?}{}", i, b as u8, r, e, if r == e { "" } else { "   <-- MISMATCH" });
             if r != e {
                 ok = false;
